@@ -57,6 +57,9 @@ def run(ctx):
     _config_accessors(ctx, r11, repo)
     r10 = ctx.rule("C12.R10", "SETTINGS-HISTORY: a parameter set's suggested fixed flags read after they were assigned (the documented way of changing a model's defaults: a bool, a list, a bool again, in any order, with reads in between) are what was assigned last, one entry per component; inits, bounds, auxdata, sigmas / factors given to the constructor are reported verbatim whatever the fixed flags", "HISTORY", floor=6)
     _paramset_history(ctx, r10, repo)
+    r12 = ctx.rule("C12.R12", "MODEL-HISTORY (interpreted, engine shared with C16.R7 / C20.R8): Workspace.model() called five times on ONE real Workspace object (default POI, a POI override, default, POI-less, default) with Model as a recorder: each call hands Model the workspace's channels, the measurement's parameter settings and the POI THAT call asks for, and leaves the workspace's stored document unchanged", "HISTORY", floor=1)
+    from .c16 import model_history
+    model_history(ctx, r12, repo)
 
     # ------------------------------------------------------------ R1
     sites = [(PDF, "_ModelConfig._create_and_register_paramsets"), (MIX, "_ChannelSummaryMixin.__init__"), (TC, "_tensorviewer_from_sizes")]
